@@ -80,9 +80,30 @@ static void track_bev(struct bufferevent *bev)
 }
 
 /* ---- raw endpoint */
+static int lfd = -1;          /* client mode: raw listening socket (the scripted peer) */
+static int naccept;
+static void set_nonblock(int fd);
+static void raw_accept(void)
+{
+	int fd;
+	if (lfd < 0) return;
+	while ((fd = accept(lfd, NULL, NULL)) >= 0) {
+		naccept++;
+		if (cfd < 0 && naccept == 1) {
+			int one = 1;
+			cfd = fd; set_nonblock(cfd);
+			setsockopt(cfd, IPPROTO_TCP, TCP_NODELAY, &one, sizeof(one));
+		} else { /* only the first connection is scripted: later ones are refused */
+			struct linger lg = { 1, 0 };
+			setsockopt(fd, SOL_SOCKET, SO_LINGER, &lg, sizeof(lg));
+			close(fd);
+		}
+	}
+}
 static void raw_drain(void)
 {
 	char buf[65536];
+	raw_accept();
 	if (cfd < 0 || cli_eof) return;
 	for (;;) {
 		ssize_t r = read(cfd, buf, sizeof(buf));
@@ -335,6 +356,88 @@ static void apply_server_cfg(jval *cfg)
 	evhttp_set_flags(http, j_int(cfg, "lingering", 0) ? EVHTTP_SERVER_LINGERING_CLOSE : 0);
 }
 
+/* ---- client mode: a real evhttp_connection against the scripted raw peer */
+static struct evhttp_connection *evcon;
+static int cli_port, ncb, nreqs;
+
+static int cli_lib_alive(void) { return cur_bev && bufferevent_getfd(cur_bev) >= 0 && cfd >= 0 && !cli_eof; }
+static void done_cb(struct evhttp_request *req, void *arg)
+{
+	int idx = (int)(intptr_t)arg;
+	if (ncb++) fputc(',', dlog);
+	if (!req || evhttp_request_get_response_code(req) == 0) { fprintf(dlog, "{\"i\":%d,\"fail\":1}", idx); return; }
+	fprintf(dlog, "{\"i\":%d,\"code\":%d,\"v\":[%d,%d],\"h\":", idx, evhttp_request_get_response_code(req), req->major, req->minor);
+	log_headers(dlog, evhttp_request_get_input_headers(req));
+	fputs(",\"b\":", dlog);
+	log_body(dlog, evhttp_request_get_input_buffer(req));
+	fputc('}', dlog);
+}
+static void client_init(void)
+{
+	struct sockaddr_in sin; socklen_t sl = sizeof(sin);
+	lfd = socket(AF_INET, SOCK_STREAM, 0);
+	memset(&sin, 0, sizeof(sin)); sin.sin_family = AF_INET; sin.sin_addr.s_addr = htonl(INADDR_LOOPBACK);
+	if (bind(lfd, (struct sockaddr *)&sin, sizeof(sin)) < 0 || listen(lfd, 16) < 0) { perror("listen"); exit(3); }
+	getsockname(lfd, (struct sockaddr *)&sin, &sl);
+	cli_port = ntohs(sin.sin_port);
+	set_nonblock(lfd);
+}
+static int have_conn(void) { return cfd >= 0; }
+static int all_done(void) { return ncb >= nreqs; }
+
+static void client_run(FILE *f, const char *bytes, size_t n, jval *cuts, jval *reqs, jval *cfg, int do_eof)
+{
+	char *dbuf = NULL; size_t dlen = 0, pos = 0, k;
+	int ncb_a;
+	reset_run(); ncb = 0; naccept = 0; cfd = -1;
+	lib_alive = cli_lib_alive;
+	dlog = open_memstream(&dbuf, &dlen);
+	evcon = evhttp_connection_base_new(base, NULL, "127.0.0.1", (ev_uint16_t)cli_port);
+	if (j_get(cfg, "max_hdr")) evhttp_connection_set_max_headers_size(evcon, (ev_ssize_t)j_int(cfg, "max_hdr", -1));
+	if (j_get(cfg, "max_body")) evhttp_connection_set_max_body_size(evcon, (ev_ssize_t)j_int(cfg, "max_body", -1));
+	track_bev(evhttp_connection_get_bufferevent(evcon));
+	nreqs = reqs ? (int)reqs->n : 0;
+	for (k = 0; k < (size_t)nreqs; k++) {
+		const char *m = reqs->items[k]->str; char uri[32];
+		struct evhttp_request *r = evhttp_request_new(done_cb, (void *)(intptr_t)k);
+		enum evhttp_cmd_type t = !strcmp(m, "HEAD") ? EVHTTP_REQ_HEAD : !strcmp(m, "POST") ? EVHTTP_REQ_POST :
+		    !strcmp(m, "CONNECT") ? EVHTTP_REQ_CONNECT : EVHTTP_REQ_GET;
+		snprintf(uri, sizeof(uri), "/r%d", (int)k);
+		evhttp_add_header(evhttp_request_get_output_headers(r), "Host", "h");
+		if (t == EVHTTP_REQ_POST) evbuffer_add(evhttp_request_get_output_buffer(r), "pp", 2);
+		evhttp_make_request(evcon, r, t, uri);
+	}
+	wait_until(have_conn);
+	settle();
+	for (k = 0; k <= (cuts ? cuts->n : 0) && !hang; k++) {
+		size_t end = (cuts && k < cuts->n) ? (size_t)cuts->items[k]->i : n;
+		if (end > n) end = n;
+		if (end <= pos) continue;
+		raw_write(bytes + pos, end - pos);
+		pos = end;
+		settle();
+		if (cli_eof || cli_rst) break;
+	}
+	settle();
+	if (do_eof) {
+		if (cfd >= 0 && !cli_eof) shutdown(cfd, SHUT_WR);
+		wait_until(all_done); /* the peer is gone: every request ends, one way or the other */
+		settle();
+	}
+	fflush(dlog);
+	ncb_a = ncb;
+	fprintf(f, "{\"cb\":[%.*s],\"closed\":%d,\"sent\":%zu", (int)dlen, dbuf ? dbuf : "", cli_eof, cli_written);
+	if (maxbuf > scen_maxbuf) scen_maxbuf = maxbuf;
+	/* teardown: abort the raw side; outstanding requests fail */
+	raw_close_abort();
+	if (!hang) wait_until(all_done);
+	fprintf(f, ",\"cb_late\":%d,\"hang\":%d}", ncb - ncb_a, hang);
+	evhttp_connection_free(evcon); evcon = NULL; cur_bev = NULL;
+	event_base_loop(base, EVLOOP_NONBLOCK);
+	raw_accept();
+	fclose(dlog); free(dbuf); dlog = NULL;
+}
+
 /* ---- scenario */
 struct obs { char *s; size_t n; int *idx; int nidx; };
 
@@ -353,7 +456,7 @@ static void run_scenario(jval *sc, FILE *out)
 		if (!strcmp(mode, "server"))
 			server_run(f, bytes->str, bytes->slen, segs->items[i], (int)j_int(sc, "eof", 1));
 		else
-			fprintf(f, "{\"err\":\"mode\"}");
+			client_run(f, bytes->str, bytes->slen, segs->items[i], j_get(sc, "reqs"), cfg, (int)j_int(sc, "eof", 0));
 		fclose(f);
 		for (k = 0; k < nobs; k++) if (obs[k].n == on && !memcmp(obs[k].s, ob, on)) break;
 		if (k == nobs) {
@@ -382,6 +485,7 @@ int main(int argc, char **argv)
 	event_set_log_callback(quiet_log);
 	base = event_base_new();
 	server_init();
+	client_init();
 	while ((line = j_readline(stdin))) {
 		if (line[0]) {
 			jval *sc = j_parse(line);
